@@ -227,7 +227,7 @@ package casket
 //@   loop 1 invariant 0 <= #i && #i <= len(i.OnRestart) && nRestart == #i && nFailed == 0 && nShut == 0 && nStop == 0 && nStart == 0 && nLive == 0 && err == nil
 //@   loop 3 invariant 0 <= #i && #i <= len(i.OnShutdown) && nShut == #i && nFailed == 0 && nStop == 1 && nStart == 1 && nRestart == len(i.OnRestart) && err == nil
 
-//@ unit event_hooks frames=on props=C08 filter=`casket\.restoreEventHooks$`
+//@ unit event_hooks frames=on props=C08,C16 filter=`casket\.restoreEventHooks$`
 //@ // "a failed reload leaves the registered event hooks as they were": the signal handler clones the hook map, purges it,
 //@ // reloads, and on failure calls restoreEventHooks(clone). sync.Map is not modelled; what is proved is the order that makes
 //@ // the result equal to the clone: the hooks registered by the failed reload are purged before the saved ones are stored.
@@ -248,7 +248,7 @@ package casket
 //@ // parseWindowsCommand (reached only when runtime.GOOS is "windows") is not covered: its part[:len(part)-1] needs an
 //@ // invariant over a string range loop that the engine cannot state yet.
 
-//@ unit signal_reload frames=on props=C08 filter=`casket\.trapSignalsPosix\$1$`
+//@ unit signal_reload frames=on props=C08,C16 filter=`casket\.trapSignalsPosix\$1$`
 //@ // SIGUSR1 reload: "a failed attempt leaves the registered event hooks as they were". hooksPurged is 1 from the moment
 //@ // the handler purges the hook registry until it either restores the saved copy or the restart succeeds (the new
 //@ // configuration has registered its own); the handler is back at the top of its signal loop only with hooksPurged == 0.
@@ -275,8 +275,13 @@ package casket
 //@ func Stop
 //@ func Upgrade
 //@ func executeShutdownCallbacks
+//@ // C16 reads the same unit: event hooks are how the `on` directive's lifecycle commands run, so hooks left behind by a
+//@ // configuration that never went live would fire at later lifecycle events; and the reload is made BY the signal loop,
+//@ // one signal at a time (the call to Restart is in the loop's own body: a reload handed to a goroutine lets a second
+//@ // SIGUSR1 restart the same old instance again and run its restart/shutdown callbacks twice)
 //@ func trapSignalsPosix$1
 //@   requires hooksPurged == 0
+//@   at call (*Instance).Restart cover [reload_runs_in_the_signal_loop_itself_one_at_a_time] hooksPurged == 1
 //@   modifies ghost:hooksPurged, ghost:savedHooks
 //@   loop 1 invariant [hooks_intact_between_signals] hooksPurged == 0
 
